@@ -1,6 +1,7 @@
 """C08 — concurrent use of the public API on an open cache is free of data races, panics and deadlocks."""
 from ..cacheprop import CacheProp
 from .. import cachegen, core
+from . import c17
 
 
 class C08(CacheProp):
@@ -35,9 +36,19 @@ class C08(CacheProp):
                     new.append(rng.choice(["del %s %s" % (k[0], k[1]), "wait", "del %s %s" % (k[0], k[1])]))
             c.ops = new + ["tok"] * 6
             out.append(c)
-        return out
+        # ring stripes (ring.go), the structure of the Get path no mutex guards: the sequential hand-off of stripes and
+        # backing arrays (Cache/RingOwn.v, C08_ring_exclusive) is tied through the `ring` component of C17
+        return out + c17.ring_cases(rng, max(6, n // 10))
+
+    def annotate(self, case, impl_lines):
+        return c17.PROP.annotate(case, impl_lines) if case.comp == "ring" else super().annotate(case, impl_lines)
+
+    def canon(self, case, i, line):
+        return line if case.comp == "ring" else super().canon(case, i, line)
 
     def oracle(self, case, il):
+        if case.comp == "ring":
+            return [f for f in c17.PROP.ring_oracle(case, il) if "backing array" in f or "panic" in f]
         fails = []
         blocked = {}
         for n, (op, line) in enumerate(zip(case.ops, il)):
@@ -54,6 +65,8 @@ class C08(CacheProp):
         return fails
 
     def nontrivial(self, case, il):
+        if case.comp == "ring":
+            return any("drain kept" in l for l in il)
         return any(l.startswith("blocked") for l in il)
 
     stress_kinds = ("race", "hang", "panic", "dupexit", "stale", "wrongkey", "lost", "torn", "sweeprace")
